@@ -98,7 +98,9 @@ class Buffer:
         A simpy.env.timeout() of duration topsim.common.globals.TIMESTEP
         """
         while True:
-            self.events = []
+            # self.events is emptied by the Monitor when it collects it: ingest
+            # and scheduler processes add buffer events earlier in a timestep
+            # than this loop runs.
             if self.env.now % 1000 == 0:
                 LOGGER.debug(
                     "\nHotBuffer: %s \nColdBuffer: %s @ %d",
